@@ -4,6 +4,7 @@
 -/
 import DV.Model.Tables
 import DV.Model.TableWF
+import DV.Model.Config
 
 namespace DV
 
@@ -125,10 +126,14 @@ def answerHeaderPre (h : Header) : Header :=
 def MsgClass.applyHeader (c : MsgClass) (h : Header) : Header :=
   { h with flags := c.applyFlags h.flags, code := if c.forcesCode then c.code else h.code }
 
+/-- `header.is_proxyable = b` (`flags | 0x40` / `flags & ~0x40`). -/
+def setP (f : Nat) (b : Bool) : Nat := if b then f ||| 0x40 else f - (f &&& 0x40)
+
 /-- `request.to_answer().header` for a request of class `c`. -/
 def toAnswerHeader (mcs : List MsgClass) (c : MsgClass) (h : Header) : Header :=
-  match findMsgClass mcs c.answerClass with
-  | some a => a.applyHeader (answerHeaderPre h)
-  | none => answerHeaderPre h
+  let a := match findMsgClass mcs c.answerClass with
+    | some a => a.applyHeader (answerHeaderPre h)
+    | none => answerHeaderPre h
+  if Config.answerKeepsP then { a with flags := setP a.flags (h.flags &&& 0x40 ≠ 0) } else a
 
 end DV
